@@ -583,6 +583,26 @@ struct SetScript {
   }
 };
 
+namespace sim {
+// ------------------------------------------------------------------------------------------------ ESwapT
+/// An element with its own (ADL) swap that may throw the injected fault, although its moves are noexcept: a container that swaps
+/// elements one by one (inline storage) must not promise noexcept for its own swap then, in any language standard.
+struct ESwapT : ENonTr<true> {
+  ESwapT() : ENonTr<true>() {}
+  ESwapT(int k, int p) : ENonTr<true>(k, p) {}
+  ESwapT(const ESwapT &o) : ENonTr<true>(o) {}
+  ESwapT(ESwapT &&o) noexcept : ENonTr<true>(std::move(o)) {}
+  ESwapT &operator=(const ESwapT &o) { ENonTr<true>::operator=(o); return *this; }
+  ESwapT &operator=(ESwapT &&o) noexcept { ENonTr<true>::operator=(std::move(o)); return *this; }
+  friend void swap(ESwapT &a, ESwapT &b) {
+    G.elem_throw_point(EV_COPY_ASSIGN);
+    ESwapT t(std::move(a));
+    a = std::move(b);
+    b = std::move(t);
+  }
+};
+
+}  // namespace sim
 // ------------------------------------------------------------------------------------------------ configurations
 typedef SimCmpT<0, false> Cmp0;
 typedef void (*ScriptFn)(uint64_t, int);
@@ -607,6 +627,8 @@ static Config kConfigs[] = {
     {"Fixed<ENonTr,5>", &VecScript<amc::FixedCapacityVector<ENT, 5> >::run, 11},
     {"SmallVector<EAl16,3,B>", &VecScript<amc::SmallVector<EAl16, 3, ABT(EAl16)> >::run, 11},
     {"Fixed<EAl16,4>", &VecScript<amc::FixedCapacityVector<EAl16, 4> >::run, 11},
+    {"SmallVector<ESwapT,3,B>", &VecScript<amc::SmallVector<ESwapT, 3, ABT(ESwapT)> >::run, 11},
+    {"Fixed<ESwapT,5>", &VecScript<amc::FixedCapacityVector<ESwapT, 5> >::run, 11},
     {"FlatSet<ETriv,B>", &SetScript<amc::FlatSet<ETriv, Cmp0, ABT(ETriv)>, true>::run, 11},
     {"FlatSet<ENonTr,SmallVector<4,S>>", &SetScript<amc::FlatSet<ENT, Cmp0, SimStdAlloc<ENT>, amc::SmallVector<ENT, 4, SimStdAlloc<ENT> > >, true>::run, 11},
     {"FlatSet<ETr,B>", &SetScript<amc::FlatSet<ETr, Cmp0, ABT(ETr)>, true>::run, 11},
